@@ -14,6 +14,7 @@
      tm_ok s     no deadline is armed, or no silence is left
      realizes P p   the reader program P returns on the flat stream what the parser p (model/Prim.v) returns *)
 From CH Require Import gen.Consts model.Messages model.Stream proofs.StreamProofs.
+From CH Require Import model.StreamGaps proofs.StreamProofs2.
 From CH Require Import model.Columns model.StreamCols proofs.ColumnsProofs2 proofs.StreamColsProofs.
 Open Scope N_scope.
 
@@ -165,4 +166,165 @@ Example c08_nonvacuous :
   out (recv_L orc H decomp body2 3 (lst [Chunk [131]; Timeout; Chunk [0; 172; 2; 2; 1; 0; 0; 0; 5]] IEof 0 [] 0)) = None /\
   out (recv_L orc H decomp body2 3 (lst [Timeout; Chunk [131]; Chunk [0; 172; 2; 2; 1; 0; 0; 0; 5]] IEof 0 [] 0)) =
     Some ([FN 300; FN 2; FN 1; FN 0; FN 0; FN 0], [5]).
+Proof. vm_compute. repeat split. Qed.
+
+(* ======================= silences in front of EVERY packet =======================
+
+   model/StreamGaps.v: [recv_st] is the receive loop with the handlers' state x : X carried from packet to packet and
+   returned with every outcome (an error or exhausted fuel included): with X = the list of what the handlers were
+   handed, the equalities below say "the same handler results in the same order".  [erase_gaps evs] = evs without its
+   Timeout events, [erase_st s] = the layered reader s over the erased events, [count_gaps] = their number.
+   Everything is compared under [fl]: the outcome, the handler state, the reader's state above the raw reader and the
+   bytes still to come with the error that ends them.
+
+   proofs/StreamProofs2.v: [gaps_at_boundaries H decomp body x g] (g = the reader on the gapped flat stream, i.e.
+   [pmap_st gfl s]: bytes bufio has buffered come first, so no silence can lie in front of them) says that every
+   silence still in the stream lies where the code tolerates one - inductively:
+     gab_none    no deadline armed and no silence left, or
+     gab_gap     no deadline armed, compression off, a silence comes next, and after it again gaps_at_boundaries, or
+     gab_packet  no deadline armed, compression off, the bytes of the next packet code are contiguous
+                 ([code_contig 10]: the only reads under a deadline are those of Client.packet's UVarInt), and
+                 wherever the handler of that packet returns to the loop, again gaps_at_boundaries (silences inside
+                 the body are met with no deadline armed and are not restricted). *)
+
+(* the loop with handler state through bufio and the chunked connection is the loop on the gapped flat stream *)
+Theorem receive_loop_st_gapped : forall orc H decomp X R (body : X -> N -> rd (X * step R)) fuel x s,
+  res_map gfl (recv_st_L orc H decomp body fuel x s) = recv_st_G H decomp body fuel x (pmap_st gfl s).
+Proof. exact (fun orc H d X R body fuel x s => recv_st_L_G orc H d body fuel x s). Qed.
+Print Assumptions receive_loop_st_gapped.
+
+(* Stream.recv_loop (every raw reader) is the instance with the trivial handler state *)
+Theorem receive_loop_is_stateless_instance : forall St rfull avail arm H decomp R (body : N -> rd (step R)) fuel s,
+  recv_loop St rfull avail arm H decomp body fuel s =
+  snd (recv_st St rfull avail arm H decomp (lift_body body) fuel tt s).
+Proof. exact (fun St rfull avail arm H d R body => recv_loop_is_recv_st St rfull avail arm H d body). Qed.
+Print Assumptions receive_loop_is_stateless_instance.
+
+(* THE GENERAL STATEMENT, against the reference (the loop on the flat stream = the bytes and the error that ends them):
+   silences in front of any number of packets, any number of them, arbitrary chunking, short reads, any buffer state.
+   (1) if the reference returns within f rounds, the real loop returns the same within any g >= f + (number of
+       silences) rounds; (2) if the real loop returns within g rounds, so does the reference, the same.
+   "The same" = handler state (results in order), outcome, reader state and remaining stream. *)
+Theorem receive_loop_gaps_neutral : forall H decomp X R (body : X -> N -> rd (X * step R)) orc x (s : prd bufio),
+  gaps_at_boundaries H decomp body x (pmap_st gfl s) ->
+  (forall f, snd (recv_st_F H decomp body f x (pmap_st fl s)) <> RFuel ->
+   forall g, (f + count_gaps (c_evs (b_conn (p_raw s))) <= g)%nat ->
+   res_map fl (recv_st_L orc H decomp body g x s) = recv_st_F H decomp body f x (pmap_st fl s)) /\
+  (forall g, snd (recv_st_L orc H decomp body g x s) <> RFuel ->
+   res_map fl (recv_st_L orc H decomp body g x s) = recv_st_F H decomp body g x (pmap_st fl s)).
+Proof. exact (fun H d X R body => recv_st_gaps_L H d body). Qed.
+Print Assumptions receive_loop_gaps_neutral.
+
+(* ... and as erasure: recv_st_L (evs) = recv_st_L (erase_gaps evs), modulo the rounds the silences cost, for any two
+   short-read oracles *)
+Theorem receive_loop_erase_gaps : forall H decomp X R (body : X -> N -> rd (X * step R)) orc orc' x (s : prd bufio),
+  c_armed (b_conn (p_raw s)) = false ->
+  gaps_at_boundaries H decomp body x (pmap_st gfl s) ->
+  (forall f, snd (recv_st_L orc' H decomp body f x (erase_st s)) <> RFuel ->
+   forall g, (f + count_gaps (c_evs (b_conn (p_raw s))) <= g)%nat ->
+   res_map fl (recv_st_L orc H decomp body g x s) = res_map fl (recv_st_L orc' H decomp body f x (erase_st s))) /\
+  (forall g, snd (recv_st_L orc H decomp body g x s) <> RFuel ->
+   res_map fl (recv_st_L orc H decomp body g x s) = res_map fl (recv_st_L orc' H decomp body g x (erase_st s))).
+Proof. exact (fun H d X R body => recv_st_erase_gaps_thm H d body). Qed.
+Print Assumptions receive_loop_erase_gaps.
+
+(* A premise on the SHAPE OF THE STREAM ALONE implies gaps_at_boundaries, for every handler that gives the reader back
+   with compression off, and is preserved round the loop (the proof is an induction over the loop): no silence directly
+   after a byte >= 128 ([gaps_shape], a boolean function of the stream).  Only a byte >= 128 can be a continuation
+   byte of the packet code's varint, so under this premise a deadline never expires with part of a code consumed. *)
+Theorem gaps_shape_implies_gaps_at_boundaries : forall H decomp X R (body : X -> N -> rd (X * step R)),
+  handlers_leave_compression_off H decomp body ->
+  forall n x s, (length (g_items (p_raw s)) <= n)%nat -> boundary s -> gaps_shape (g_items (p_raw s)) = true ->
+  gaps_at_boundaries H decomp body x s.
+Proof. exact (fun H d X R body => gaps_shape_gab H d body). Qed.
+Print Assumptions gaps_shape_implies_gaps_at_boundaries.
+
+Theorem receive_loop_erase_gaps_shape : forall H decomp X R (body : X -> N -> rd (X * step R)) orc orc' x (s : prd bufio),
+  handlers_leave_compression_off H decomp body ->
+  c_armed (b_conn (p_raw s)) = false -> p_comp s = false ->
+  gaps_shape (g_items (gfl (p_raw s))) = true ->
+  (forall f, snd (recv_st_L orc' H decomp body f x (erase_st s)) <> RFuel ->
+   forall g, (f + count_gaps (c_evs (b_conn (p_raw s))) <= g)%nat ->
+   res_map fl (recv_st_L orc H decomp body g x s) = res_map fl (recv_st_L orc' H decomp body f x (erase_st s))) /\
+  (forall g, snd (recv_st_L orc H decomp body g x s) <> RFuel ->
+   res_map fl (recv_st_L orc H decomp body g x s) = res_map fl (recv_st_L orc' H decomp body g x (erase_st s))).
+Proof. exact (fun H d X R body => recv_st_gaps_shape_thm H d body). Qed.
+Print Assumptions receive_loop_erase_gaps_shape.
+
+(* the same two statements for Stream.recv_L (stateless handlers), as the brief names it *)
+Theorem recv_L_erase_gaps : forall H decomp R (body : N -> rd (step R)) orc orc' (s : prd bufio),
+  c_armed (b_conn (p_raw s)) = false ->
+  gaps_at_boundaries H decomp (lift_body body) tt (pmap_st gfl s) ->
+  (forall f, recv_L orc' H decomp body f (erase_st s) <> RFuel ->
+   forall g, (f + count_gaps (c_evs (b_conn (p_raw s))) <= g)%nat ->
+   rr_map fl (recv_L orc H decomp body g s) = rr_map fl (recv_L orc' H decomp body f (erase_st s))) /\
+  (forall g, recv_L orc H decomp body g s <> RFuel ->
+   rr_map fl (recv_L orc H decomp body g s) = rr_map fl (recv_L orc' H decomp body g (erase_st s))).
+Proof. exact (fun H d R body => recv_L_erase_gaps_thm H d body). Qed.
+Print Assumptions recv_L_erase_gaps.
+
+Theorem recv_L_erase_gaps_shape : forall H decomp R (body : N -> rd (step R)) orc orc' (s : prd bufio),
+  (forall code (g : prd gflat), p_comp g = false -> comp_off (run_G H decomp (body code) g)) ->
+  c_armed (b_conn (p_raw s)) = false -> p_comp s = false ->
+  gaps_shape (g_items (gfl (p_raw s))) = true ->
+  (forall f, recv_L orc' H decomp body f (erase_st s) <> RFuel ->
+   forall g, (f + count_gaps (c_evs (b_conn (p_raw s))) <= g)%nat ->
+   rr_map fl (recv_L orc H decomp body g s) = rr_map fl (recv_L orc' H decomp body f (erase_st s))) /\
+  (forall g, recv_L orc H decomp body g s <> RFuel ->
+   rr_map fl (recv_L orc H decomp body g s) = rr_map fl (recv_L orc' H decomp body g (erase_st s))).
+Proof. exact (fun H d R body => recv_L_gaps_shape_thm H d body). Qed.
+Print Assumptions recv_L_erase_gaps_shape.
+
+(* gaps_at_boundaries is checkable: the boolean gab_check (model/StreamGaps.v) implies it *)
+Theorem gaps_at_boundaries_checkable : forall H decomp X R (body : X -> N -> rd (X * step R)) fuel x s,
+  gab_check H decomp body fuel x s = true -> gaps_at_boundaries H decomp body x s.
+Proof. exact (fun H d X R body => gab_check_sound H d body). Qed.
+Print Assumptions gaps_at_boundaries_checkable.
+
+(* the initial states: a fresh connection over the events, and over the erased events *)
+Theorem erase_gaps_initial_state : forall evs tl,
+  erase_st (p_init (conn_init evs tl)) = p_init (conn_init (erase_gaps evs) tl) /\
+  pmap_st gfl (p_init (conn_init evs tl)) = mkG (g_evs evs) tl false [] 0.
+Proof. exact (fun evs tl => conj (erase_st_init evs tl) (gfl_init evs tl)). Qed.
+Print Assumptions erase_gaps_initial_state.
+
+(* Non-vacuity.  Three packets - Progress(300,2,1,0,0,0), Progress(5,1,1,0,0,0), EndOfStream - with the handlers
+   logging what they decoded.  evs1: silences in front of all three packets (1, 2 and 1 of them), the first packet
+   split inside the varint 300; it meets the shape premise; the loop needs 3 + 4 rounds and delivers the same log, in
+   the same order, with the same (empty) remaining stream as the erased events in 3 rounds (another oracle); with 6
+   rounds it runs out of fuel having delivered both Progress packets.  evs2: one more silence inside the first packet's
+   body directly after the byte 172 >= 128: the shape premise fails, gaps_at_boundaries holds (gab_check) - the silence
+   is met without a deadline - and the outcome is again that of the erased events.  evs3: a silence inside a
+   non-canonical two-byte packet code: gab_check rejects it, and the outcome differs. *)
+Example c08_gaps_before_every_packet :
+  let H := fun _ : list N => (0, 0) in
+  let decomp := fun (_ : N) (_ : list N) (_ : N) => @None (list N) in
+  let handler := fun code : N =>
+    if code =? 3 then rbind (r_decode_fields 54460 L_Progress) (fun f => RRet (f, @Continue unit))
+    else if code =? 5 then RRet ([], Done tt)
+    else RFail EInvalid in
+  let body := log_body handler in
+  let orc := fun i : nat => if Nat.even i then 1%nat else 0%nat in
+  let orc0 := fun _ : nat => 0%nat in
+  let out := fun r : list (N * list fv) * rr bufio unit =>
+    (rev (fst r), match snd r with ROk _ s => Some (flatten (p_raw s)) | _ => None end) in
+  let p1 := [FN 300; FN 2; FN 1; FN 0; FN 0; FN 0] in
+  let p2 := [FN 5; FN 1; FN 1; FN 0; FN 0; FN 0] in
+  let evs1 := [Timeout; Chunk [3; 172]; Chunk [2; 2; 1; 0; 0; 0]; Timeout; Timeout; Chunk [3; 5; 1; 1; 0; 0; 0];
+               Timeout; Chunk [5]] in
+  let evs2 := [Timeout; Chunk [3; 172]; Timeout; Chunk [2; 2; 1; 0; 0; 0]; Timeout; Timeout; Chunk [3; 5; 1; 1; 0; 0; 0];
+               Timeout; Chunk [5]] in
+  let evs3 := [Timeout; Chunk [131]; Timeout; Chunk [0; 172; 2; 2; 1; 0; 0; 0; 5]] in
+  let st := fun evs => p_init (conn_init evs IEof) in
+  gaps_shape (g_evs evs1) = true /\ count_gaps evs1 = 4%nat /\
+  erase_gaps evs1 = [Chunk [3; 172]; Chunk [2; 2; 1; 0; 0; 0]; Chunk [3; 5; 1; 1; 0; 0; 0]; Chunk [5]] /\
+  out (recv_st_L orc H decomp body 7 [] (st evs1)) = ([(3, p1); (3, p2); (5, [])], Some []) /\
+  out (recv_st_L orc0 H decomp body 3 [] (st (erase_gaps evs1))) = ([(3, p1); (3, p2); (5, [])], Some []) /\
+  out (recv_st_L orc H decomp body 6 [] (st evs1)) = ([(3, p1); (3, p2)], None) /\
+  gaps_shape (g_evs evs2) = false /\
+  gab_check H decomp body 20 [] (pmap_st gfl (st evs2)) = true /\
+  out (recv_st_L orc H decomp body 8 [] (st evs2)) = ([(3, p1); (3, p2); (5, [])], Some []) /\
+  gab_check H decomp body 20 [] (pmap_st gfl (st evs3)) = false /\
+  out (recv_st_L orc H decomp body 8 [] (st evs3)) = ([], None) /\
+  out (recv_st_L orc H decomp body 8 [] (st (erase_gaps evs3))) = ([(3, p1); (5, [])], Some []).
 Proof. vm_compute. repeat split. Qed.
